@@ -288,6 +288,12 @@ static void set_sample_end(struct context_data *ctx, int voc, int end)
 }
 
 #ifdef LIBXMP_VERIF
+/* Verification hook H5: iterations of the per-voice inner loop of
+ * libxmp_mixer_softmixer since the harness last cleared the counter. */
+unsigned long libxmp_verif_mixer_iters = 0;
+#endif
+
+#ifdef LIBXMP_VERIF
 /* Verification hook H2: told about every loop wrap-around patch (1: active,
  * 2: skipped) and restore (0) the mixer performs. */
 void (*libxmp_verif_wraplog)(int what, void *sptr, int start, int end) = NULL;
@@ -699,6 +705,9 @@ void libxmp_mixer_softmixer(struct context_data *ctx)
 
 		for (size = usmp = s->ticksize; size > 0; ) {
 			int split_noloop = 0;
+#ifdef LIBXMP_VERIF
+			libxmp_verif_mixer_iters++;
+#endif
 
 			if (p->xc_data[vi->chn].split) {
 				split_noloop = 1;
